@@ -17,3 +17,19 @@ Theorem c20_unit : exists k, 0 < k /\ forall s n, reading_ok s n ->
   epoch s n = Some ((s * 10 ^ 9 + n) / k).
 Proof. exact epoch_unit. Qed.
 Print Assumptions c20_unit.
+
+(* ---- statements about the C code AS TRANSLATED on this run (Gen/Sites.v: every guard, declaration, conversion and call argument with the
+   types clang computed; tools/sites.py), for every memory m and every environment: tie #1 extended from constants to arithmetic and
+   control flow.  Vocabulary in Spec/CodeSpec.v, evaluator and interpreter in Base/CExpr.v, proofs in Proofs/SitesProofs.v. ---- *)
+From Coq Require Import String.
+From LW Require Import Base.CExpr Gen.Sites Spec.CodeSpec Proofs.SitesProofs.
+Local Open Scope string_scope.
+Local Open Scope Z_scope.
+
+(* sec = spec.tv_sec, nsec = spec.tv_nsec *)
+Theorem c20_code_epoch : forall m rho sec nsec,
+  rho "spec.tv_sec" = sec -> rho "spec.tv_nsec" = nsec ->
+  0 <= sec < 2 ^ 40 -> 0 <= nsec < 10 ^ 9 ->
+  ceval rho m (site sites_libwifi_get_epoch "ret#0") = Some (sec * 1000000 + nsec / 1000).
+Proof. exact code_epoch. Qed.
+Print Assumptions c20_code_epoch.
